@@ -277,6 +277,36 @@ fn std_durations(acc: &mut Acc, tl: &[(u32, u32)]) {
     }
 }
 
+/// Histories of length two (and the a-b / b-a / a-b triple) on one thread over times that could share a slot of a
+/// hidden cache: equal seconds modulo 2^16, a leap second and the second after it, the same fields in another order.
+fn history_pairs(acc: &mut Acc) {
+    let ts: Vec<(u32, u32)> = vec![(3600, 0), (69_136, 0), (3601, 1), (86_399, 1_500_000_000), (0, 500_000_000), (86_399, 500_000_000), (11_159, 1_300_000_000), (11_159, 300_000_000), (43_200, 0), (43_200 + 16_384, 0)];
+    let durs: Vec<i128> = vec![250_000_000, 86_400 * NS, 0, 700_000_000, NS, -NS, 172_800 * NS, 86_400 * NS + 250_000_000];
+    for &i in &pair_order(ts.len()) {
+        let (s, f) = ts[i];
+        let t = mk_t(s, f);
+        acc.transitions += 1;
+        let got = (t.hour(), t.minute(), t.second(), t.nanosecond(), t.num_seconds_from_midnight(), t.hour12());
+        let h = s / 3600;
+        let want = (h, s / 60 % 60, s % 60, f, s, (h >= 12, if h % 12 == 0 { 12 } else { h % 12 }));
+        if got != want {
+            acc.violation("NaiveTime:accessors:history", format!("accessors of NaiveTime(sec {} frac {}) after another time was read", s, f), format!("{:?}", want), format!("{:?}", got));
+        }
+        add_all(acc, s, &[f], &durs, false);
+    }
+    for a in 0..ts.len() {
+        for b in 0..ts.len() {
+            let (ta, tb) = (mk_t(ts[a].0, ts[a].1), mk_t(ts[b].0, ts[b].1));
+            let want = ref_diff(ts[a], ts[b]);
+            acc.transitions += 3;
+            let got = [delta_ns(ta - tb), delta_ns(tb - ta), delta_ns(ta - tb), delta_ns(ta.signed_duration_since(tb))];
+            if got != [want, -want, want, want] {
+                acc.violation("NaiveTime:difference:history", format!("a - b, b - a, a - b with a = (sec {} frac {}), b = (sec {} frac {})", ts[a].0, ts[a].1, ts[b].0, ts[b].1), format!("{:?}", [want, -want, want, want]), format!("{:?}", got));
+            }
+        }
+    }
+}
+
 fn offsets(acc: &mut Acc, s: u32, fracs: &[u32], offs: &[i32]) {
     for &f in fracs {
         let t = mk_t(s, f);
@@ -509,6 +539,7 @@ fn main() {
                 diffs(acc, a, &tl);
             }
             std_durations(acc, &tl);
+            history_pairs(acc);
             acc.traces += 1;
         } else {
             ndt_leap(acc, bd[(u - nsec_units - 2) as usize], &durs);
